@@ -26,3 +26,47 @@ pub open spec fn is_error_id(ps: Seq<&Policy>, ev: &Evaluator<'_>, id: PolicyID)
     has(ps, ev, id, Effect::Permit, Outcome::Errd) || has(ps, ev, id, Effect::Forbid, Outcome::Errd)
         || has(ps, ev, id, Effect::Permit, Outcome::Resid) || has(ps, ev, id, Effect::Forbid, Outcome::Resid)
 }
+
+// ---- re-authorization (C13): the residual policy set of a partial response ----
+/// one component tuple stands for a bucket entry of the response: the bucket's effect, an id of that bucket, and the expression
+/// `true` / `false` / the stored residual according to the bucket
+pub open spec fn comp_ok(pr: PartialResponse, c: PolicyComponents<'_>, eff: Effect) -> bool {
+    &&& c.0 == eff
+    &&& eff == Effect::Permit ==> (
+            (pr.satisfied_permits@.contains_key(*c.1) && *c.2 == pr.true_expr)
+         || (pr.false_permits@.contains_key(*c.1) && *c.2 == pr.false_expr)
+         || (pr.residual_permits@.contains_key(*c.1) && *c.2 == pr.residual_permits@[*c.1].0))
+    &&& eff == Effect::Forbid ==> (
+            (pr.satisfied_forbids@.contains_key(*c.1) && *c.2 == pr.true_expr)
+         || (pr.false_forbids@.contains_key(*c.1) && *c.2 == pr.false_expr)
+         || (pr.residual_forbids@.contains_key(*c.1) && *c.2 == pr.residual_forbids@[*c.1].0))
+}
+pub open spec fn in_buckets(pr: PartialResponse, id: PolicyID, eff: Effect) -> bool {
+    if eff == Effect::Permit { pr.satisfied_permits@.contains_key(id) || pr.false_permits@.contains_key(id) || pr.residual_permits@.contains_key(id) }
+    else { pr.satisfied_forbids@.contains_key(id) || pr.false_forbids@.contains_key(id) || pr.residual_forbids@.contains_key(id) }
+}
+pub open spec fn comp_has(s: Seq<PolicyComponents<'_>>, id: PolicyID) -> bool { exists|i: int| 0 <= i < s.len() && *(#[trigger] s[i]).1 == id }
+/// the component sequence lists every entry of the three buckets of this effect, and nothing else
+pub open spec fn comps_ok(pr: PartialResponse, s: Seq<PolicyComponents<'_>>, eff: Effect) -> bool {
+    (forall|i: int| 0 <= i < s.len() ==> comp_ok(pr, #[trigger] s[i], eff))
+    && (forall|id: PolicyID| in_buckets(pr, id, eff) ==> #[trigger] comp_has(s, id))
+}
+/// a policy of the residual policy set: a static when-clause policy for one bucket entry
+pub open spec fn resid_pol(pr: PartialResponse, p: Policy) -> bool {
+    p.spec_env() == empty_env() && exists|e: Arc<Expr>| #![trigger when_cond(*e)] p.spec_condition() == when_cond(*e) && (
+            (p.spec_effect() == Effect::Permit && (
+                (pr.satisfied_permits@.contains_key(p.spec_id()) && e == pr.true_expr)
+             || (pr.false_permits@.contains_key(p.spec_id()) && e == pr.false_expr)
+             || (pr.residual_permits@.contains_key(p.spec_id()) && e == pr.residual_permits@[p.spec_id()].0)))
+         || (p.spec_effect() == Effect::Forbid && (
+                (pr.satisfied_forbids@.contains_key(p.spec_id()) && e == pr.true_expr)
+             || (pr.false_forbids@.contains_key(p.spec_id()) && e == pr.false_expr)
+             || (pr.residual_forbids@.contains_key(p.spec_id()) && e == pr.residual_forbids@[p.spec_id()].0))))
+}
+pub open spec fn pol_has(s: Seq<&Policy>, id: PolicyID, eff: Effect) -> bool { exists|i: int| 0 <= i < s.len() && (#[trigger] s[i]).spec_id() == id && s[i].spec_effect() == eff }
+/// `ps` is the residual policy set of `pr`: pairwise distinct ids, one residual policy per bucket entry, nothing else
+pub open spec fn resid_set(pr: PartialResponse, ps: PolicySet) -> bool {
+    &&& ps.distinct_ids()
+    &&& forall|i: int| 0 <= i < ps.policy_seq().len() ==> resid_pol(pr, *(#[trigger] ps.policy_seq()[i]))
+    &&& forall|id: PolicyID, eff: Effect| in_buckets(pr, id, eff) ==> #[trigger] pol_has(ps.policy_seq(), id, eff)
+}
